@@ -214,6 +214,45 @@ def correspondence(ctx, rng, n):
                    bad == 0, kind="correspondence", detail="disagreements %d" % bad)
 
 
+def oracle_clones(ctx, rng, n):
+    """several assemblies of ONE type in a core (clones of a template), unrodded regions of both models, gravity head on:
+    every assembly accumulates its own pressure drop once - its gravity head is rho g L, its total the sum of its regions"""
+    import shutil
+    for ci in range(n):
+        pos = [(1, 1)] + [p for p in gi.core_positions(2)[1:] if rng.random() < 0.5][:3]
+        while len(pos) < 2:
+            pos = [(1, 1)] + [p for p in gi.core_positions(2)[1:] if rng.random() < 0.5][:3]
+        L = 0.5
+        case = gi.random_case(rng, positions=pos, n_types=1, gap_model=rng.choice(['none', 'flow']), length=L, const_props=True,
+                              flow_range=(1.0, 6.0), type_kw=dict(n_ring=rng.choice([2, 3]), n_duct=1))
+        gi.add_axial_regions(rng, case, 't0', models=('6node',) if ci % 2 == 0 else ('simple', '6node'))
+        gi.random_power(rng, case)
+        case['setup']['include_gravity_head_loss'] = True
+        d = str(ctx.work / ("cl%d" % ci))
+        try:
+            inp, r = gi.build_reactor(case, d)
+            gi.sweep(r)
+        except SystemExit:
+            ctx.count("clones_rejected")
+            continue
+        ctx.evals += 1
+        for a in r.assemblies:
+            grav = sum(float(reg._pressure_drop.get('gravity', 0.0)) for reg in a.region)
+            rho_g = a.region[0].coolant.density * 9.80665 * L
+            tot = float(a.pressure_drop)
+            per = sum(float(reg.pressure_drop) for reg in a.region)
+            if abs(grav - rho_g) > 1e-9 * rho_g:
+                ctx.violation("c14-gravity-closed-form:clones", "assembly %d of %d clones: gravity head %.9g Pa, rho g L = %.9g Pa"
+                              % (a.id, len(r.assemblies), grav, rho_g), case=case)
+                break
+            if abs(tot - per) > 1e-9 * max(tot, 1.0):
+                ctx.violation("c14-additive:clones", "assembly %d of %d clones: pressure drop %.9g Pa is not the sum of its regions %.9g Pa"
+                              % (a.id, len(r.assemblies), tot, per), case=case)
+                break
+        ctx.count("clone_cores")
+        shutil.rmtree(d, ignore_errors=True)
+
+
 def run(ctx):
     rng = random.Random(14000 + ctx.seed)
     ctx.rule = ("oracle: single-assembly reactors with 0-3 spacer grids (dyadic steps with grids on planes, decimal steps), "
@@ -229,6 +268,7 @@ def run(ctx):
         ctx.prove("Dassh.Props.C14")
     correspondence(ctx, rng, 200 if ctx.thorough else 40)
     oracle(ctx, rng, 60 if ctx.thorough else 16)
+    oracle_clones(ctx, rng, 8 if ctx.thorough else 2)
     ctx.nontrivial = ctx.evals
     ctx.traces = ctx.evals
     ctx.trusted += ["T1 trace of the per-step increments; hand fold model lean/Dassh/Model/Pressure.lean (its step rule is "
